@@ -173,4 +173,37 @@ theorem shape_Line_Copy : Facts.shape_Line_Copy = some "4bc3e325131cb205" := by 
 theorem shape_Line_argslen : Facts.shape_Line_argslen = some "4bc497c6842944f2" := by decide
 
 
+/-- [C02,C05,C13,C17,C18,C19] the internal handler table is the one `Go.Client.intHandler` transcribes -/
+theorem table_intHandlers : Facts.table_intHandlers = some ["001=(*Conn).h_001", "410=(*Conn).h_410", "433=(*Conn).h_433",
+    "903=(*Conn).h_903", "904=(*Conn).h_904", "908=(*Conn).h_908", "AUTHENTICATE=(*Conn).h_AUTHENTICATE", "CAP=(*Conn).h_CAP",
+    "CTCP=(*Conn).h_CTCP", "NICK=(*Conn).h_NICK", "PING=(*Conn).h_PING", "REGISTER=(*Conn).h_REGISTER"] := by decide
+
+/-- [C05,C13,C17] the state-handler table is the one `Go.Client.stHandler` transcribes; all of them are added to the
+internal set by `addSTHandlers` (shape pinned below) -/
+theorem table_stHandlers : Facts.table_stHandlers = some ["311=(*Conn).h_311", "324=(*Conn).h_324", "332=(*Conn).h_332",
+    "352=(*Conn).h_352", "353=(*Conn).h_353", "671=(*Conn).h_671", "JOIN=(*Conn).h_JOIN", "KICK=(*Conn).h_KICK", "MODE=(*Conn).h_MODE",
+    "NICK=(*Conn).h_STNICK", "PART=(*Conn).h_PART", "QUIT=(*Conn).h_QUIT", "TOPIC=(*Conn).h_TOPIC"] := by decide
+
+/-- [C17] `Conn.h.001` is the body the model transcribes -/
+theorem shape_Conn_h_001 : Facts.shape_Conn_h_001 = some "39cdb5fd2e59ad85" := by decide
+
+/-- [C17] `Conn.h.433` is the body the model transcribes -/
+theorem shape_Conn_h_433 : Facts.shape_Conn_h_433 = some "75c67a2eea59a0f5" := by decide
+
+/-- [C17] `Conn.h.NICK` is the body the model transcribes -/
+theorem shape_Conn_h_NICK : Facts.shape_Conn_h_NICK = some "42afd7d95ea7c46a" := by decide
+
+/-- [C17] `Conn.h.STNICK` is the body the model transcribes -/
+theorem shape_Conn_h_STNICK : Facts.shape_Conn_h_STNICK = some "f2f480938a7979fe" := by decide
+
+/-- [C17] `Conn.Me` is the body the model transcribes -/
+theorem shape_Conn_Me : Facts.shape_Conn_Me = some "5755dec09382bb87" := by decide
+
+/-- [C17] `DefaultNewNick` is the body the model transcribes -/
+theorem shape_DefaultNewNick : Facts.shape_DefaultNewNick = some "3735fad4833fb43f" := by decide
+
+/-- [C17] `Conn.EnableStateTracking` is the body the model transcribes -/
+theorem shape_Conn_EnableStateTracking : Facts.shape_Conn_EnableStateTracking = some "a0a16c9811ebe237" := by decide
+
+
 end FactsCheck
